@@ -285,6 +285,11 @@ std::string run_one(const RunSpec& spec, unsigned wall_timeout_s)
     return abnormal_json(spec, "hang", "no result within " + std::to_string(wall_timeout_s) + " s of real time (no scheduling point reached: busy loop?)", tail);
   }
   bool complete = !out.empty() && out.back() == '\n';
+  if (spec.verbose && getenv("SIMRT_SHOW_STDERR"))
+  {
+    std::string t = read_file_tail(errpath, 0);
+    fwrite(t.data(), 1, t.size(), stderr);
+  }
   if (complete && WIFEXITED(st) && WEXITSTATUS(st) == 0) return out;
   std::string tail = read_file_tail(errpath, 8000);
   std::string kind;
@@ -314,6 +319,8 @@ std::string scratch_dir()
 }
 } // namespace sim
 
+extern "C" void harness_preinit() __attribute__((weak)); // optional: runs once in the worker before any fork (e.g. OpenSSL init)
+
 int main(int argc, char** argv)
 {
   // address-space layout randomisation off: heap/stack addresses repeat between a batch run and its replay
@@ -327,6 +334,7 @@ int main(int argc, char** argv)
   }
   signal(SIGPIPE, SIG_IGN);
   HarnessInfo hi = harness_info();
+  if (harness_preinit) harness_preinit();
   const char* sr = getenv("VERIF_SCRATCH");
   g_scratch_root = std::string(sr && *sr ? sr : "/dev/shm") + "/iora-verif." + std::to_string((long)getpid());
   mkdir(g_scratch_root.c_str(), 0700);
